@@ -7,7 +7,9 @@ and the coefficient tables DinoGen/Tableaux.lean regenerated from dinosaur/time_
 Tie:
  (a) every named closure hypothesis of the theorems (`OpsClosed`, `Mean0`, linearity, `div(uv) = delta`, the l = 0
      block of the numerically inverted implicit matrix, the filters) is validated on the real `Grid` operators, exact
-     zeros bitwise;
+     zeros bitwise; on unpadded layouts with Mk = the modal mask, on PADDED layouts (`base_shape_multiple`) with
+     Mk = mask + first padding column of the total-wavenumber axis (`_mk`; the raw latitude derivatives write there, so
+     Mk = mask does not satisfy `OpsClosed` on such layouts), S = mask below the clipped wavenumber in both cases;
  (b) model correspondence through the driver namespace `inv`: clock advances of the two integrator factories (exact,
      against the real integrators run on the scalar clock problem), the structural predicate, the shallow-water
      equation set, and whole model trajectories (integrator of Dino.Imex on a class of Dino.Dynamics followed by the
@@ -17,6 +19,7 @@ Tie:
      equation class (+ shallow-water leapfrog) on small grids, checking after every step: exact zeros outside the mask
      and at the clipped wavenumber, (zeta, delta)_00, shallow-water phi_00, sim_time = t0 + k dt, uniform tracer.
 """
+import functools
 import math
 import os
 from fractions import Fraction
@@ -29,10 +32,9 @@ import dinoutil
 from gen import tableaux
 from props import c04_dyn as D
 
-_DRV = os.path.join(common.LEAN, 'Dino', 'InvariantsDrv.lean')
-# newer driver: the shallow-water operations run Dino.DynamicsSW (the model shared with C05/C10/C12), which computes the
-# density ratios itself from the densities
-SW_DENSITIES = os.path.exists(_DRV) and 'sw-densities' in open(_DRV).read()
+# the shallow-water operations of the `inv` driver run Dino.DynamicsSW (the model shared with C05/C10/C12), which computes
+# the density ratios itself from the DENSITIES: the wire format is fixed (a driver without these operations is a
+# correspondence break, not a reason to switch formats)
 LEMMA_FILES = ['DinoProofs/Lemmas/Invariants.lean', 'DinoProofs/Lemmas/InvariantsDyn.lean',
                'DinoProofs/Lemmas/InvariantsTM.lean', 'DinoProofs/Lemmas/InvariantsShape.lean',
                'DinoProofs/Lemmas/InvariantsMean.lean', 'DinoProofs/Lemmas/InvariantsPE.lean',
@@ -54,12 +56,20 @@ TIME_TOL = 1e-12      # sim_time, relative to |t0| + k |dt|
 TRACER_TOL = 1e-11    # uniform tracer, relative to its value
 DRIFT_TOL = 1e-13     # per step, relative: quantities that are conserved only to rounding (see `_tolerances`)
 CLASSES = ('dry', 'time', 'moist', 'cloud')
+# (M, dealiasing, impl, base_shape_multiple): layouts with a padded total-wavenumber axis
+PADDED_TABLE = [(5, 'quadratic', 'fast', 4), (6, 'cubic', 'fast', 5), (4, 'quadratic', 'fast', 3), (6, 'quadratic', 'fast', 8),
+                (9, 'linear', 'fast', 4)]
 ONE_STATE = ('bfe', 'cnrk2', 'rk3', 'rk4', 'sil3')
-RULE = ('hypotheses: Grid.with_wavenumbers M in {5,8,10(,21)} x {Real,Fast}SphericalHarmonics x {quadratic,linear,cubic}, '
-        '4-8 random draws each, arbitrary (unmasked, unclipped) inputs where the theorem quantifies over every state; '
+RULE = ('hypotheses: Grid.with_wavenumbers M in {5,8,10(,21)} x {Real,Fast}SphericalHarmonics x {quadratic,linear,cubic} '
+        '+ PADDED layouts FastSphericalHarmonics(base_shape_multiple in {3,4,5,8}) with Mk = mask + first padding column of '
+        'the total-wavenumber axis, S = mask below the clipped wavenumber (1 padded grid quick, by rotation / 5 thorough; 1 / 3 padded '
+        'equation configurations with orography on that column), '
+        '4-8 random draws each, arbitrary (unmasked, unclipped, garbage on the padding) inputs where the theorem quantifies '
+        'over every state; '
         'correspondence: M=4 grids, 2-3 uneven layers, random orography, k=3 steps; probes: M in {5..10(,21)}, 3-6 uneven '
         'layers, random orography, random physical constants, constant/variable T_ref, k=20 (quick) / 200 (thorough) '
-        'steps, all integrators x filter stacks x classes by rotation over the seed (all combinations in thorough); '
+        'steps, all integrators x filter stacks x classes by rotation over the seed (all combinations in thorough), one run '
+        'per quick plan (every 6th of the thorough plan) and the shallow-water run of odd seeds on a padded layout; '
         'a case is non-trivial when layers >= 2; distinct = distinct (configuration, operation/step) hashes')
 NOTE = ('(zeta,delta)_00: exact (bitwise) for the dry classes when the numerical inverse has an exactly decoupled l = 0 '
         'block, otherwise and for Robert-Asselin (a convex combination that is the identity only to rounding) within '
@@ -89,10 +99,15 @@ class _Env:
                     rk4=ti.crank_nicolson_rk4, sil3=ti.imex_rk_sil3)
     self._grids = {}
 
-  def grid(self, M, dealiasing='quadratic', impl='real', radius=1.0):
-    key = (M, dealiasing, impl, float(radius))
+  def grid(self, M, dealiasing='quadratic', impl='real', radius=1.0, base=None):
+    """`base`: `base_shape_multiple` of FastSphericalHarmonics (a PADDED layout: modal and nodal shapes rounded up to
+    multiples of it, as on a device mesh); None = the unpadded default"""
+    key = (M, dealiasing, impl, float(radius), base)
     if key not in self._grids:
       cls = self.sh.RealSphericalHarmonics if impl == 'real' else self.sh.FastSphericalHarmonics
+      if base is not None:
+        assert impl == 'fast'
+        cls = functools.partial(cls, base_shape_multiple=base)
       self._grids[key] = self.sh.Grid.with_wavenumbers(M, dealiasing=dealiasing, spherical_harmonics_impl=cls,
                                                        radius=radius)
     return self._grids[key]
@@ -114,8 +129,22 @@ def _keep(grid):
   return keep
 
 
-def _gname(M, dealiasing, impl):
-  return f'{impl}-{dealiasing}{M}'
+def _mk(grid):
+  """the submodule `Mk` of the theorems (`OpsClosed h Mk S`): the modal mask and, on a layout whose total-wavenumber axis
+  is PADDED (`base_shape_multiple`, device meshes), the first padding column l = L next to the resolved block as well (rows
+  of the zonal wavenumbers resolved at l = L - 1).  `_derivative_recurrence_weights` zeroes `b[:, -1]`, the last column of
+  the padded layout, so the raw `sec_lat_d_dlat_cos2` / `cos_lat_d_dlat` write `-(L-1) b[L-1] x[L-1]` there (C07's DOMAIN
+  statement, C09 `fastDD_iota_colL`): with Mk = mask `OpsClosed.secLat_mem` is FALSE on such layouts (asserted below as
+  `padded: ...`), with this Mk every hypothesis holds and `clip_wavenumbers` (which zeroes the padding) still maps Mk into S."""
+  mk = np.array(grid.mask, dtype=bool)
+  if grid.modal_padding[-1] > 0:
+    L = grid.modal_shape[-1] - grid.modal_padding[-1]
+    mk[:, L] = mk[:, L - 1]
+  return mk
+
+
+def _gname(M, dealiasing, impl, base=None):
+  return f'{impl}-{dealiasing}{M}' + ('' if base is None else f'-padded{base}')
 
 
 def _rel(a, b):
@@ -138,46 +167,78 @@ def _off(x, sel):
 
 def _hypotheses(ctx, E):
   rng, jnp = ctx.rng, E.jnp
-  table = [(5, 'quadratic', 'real'), (8, 'quadratic', 'fast'), (7, 'linear', 'real'), (6, 'cubic', 'fast')]
+  table = [(5, 'quadratic', 'real', None), (8, 'quadratic', 'fast', None), (7, 'linear', 'real', None),
+           (6, 'cubic', 'fast', None)]
+  # PADDED layouts (review 2, N3): base_shape_multiple pads the modal (m and l) and nodal shapes; Mk = mask + first padding
+  # column (`_mk`), S = mask below the clipped wavenumber (`_keep`).  (5, 4): l axis padded by 2, nodal shape unpadded;
+  # (6, 5, cubic): l axis padded by 3, latitudes padded by 2; (4, 3): l axis padded by 1, both nodal axes padded
+  table += [PADDED_TABLE[ctx.seed % 3]] if ctx.quick else PADDED_TABLE      # quick: one of the first three, by rotation
   if not ctx.quick:
-    table += [(10, 'quadratic', 'real'), (10, 'linear', 'fast'), (21, 'quadratic', 'real'), (21, 'quadratic', 'fast'),
-              (4, 'quadratic', 'real'), (12, 'cubic', 'real')]
+    table += [(10, 'quadratic', 'real', None), (10, 'linear', 'fast', None), (21, 'quadratic', 'real', None),
+              (21, 'quadratic', 'fast', None), (4, 'quadratic', 'real', None), (12, 'cubic', 'real', None)]
   worst = {}       # hypothesis -> (violation, grid, exact, tol)
+  grids_of = {}    # hypothesis -> the grids it was evaluated on
 
   def rec(h, val, gname, inp, exact=True, tol=0.0):
     ok = (val == 0.0) if exact else (val <= tol)
     if h not in worst or val > worst[h][0]:
       worst[h] = (val, gname, exact, tol)
+    grids_of.setdefault(h, set()).add(gname)
     ctx.case((h, gname, ctx.seed, ctx.evaluations), nontrivial=True)
     ctx.expect(ok, f'hyp:{h}', f'closure hypothesis {h} fails on the real Grid ({gname}): violation {val:.3e}',
                dict(inp, hypothesis=h, violation=val))
     return ok
 
-  for (M, deal, impl) in table:
-    grid = E.grid(M, deal, impl, radius=float(rng.choice([1.0, 1.7])))
-    gname = _gname(M, deal, impl)
+  for (M, deal, impl, base) in table:
+    grid = E.grid(M, deal, impl, radius=float(rng.choice([1.0, 1.7])), base=base)
+    gname = _gname(M, deal, impl, base)
     ms, ns, mask, keep = grid.modal_shape, grid.nodal_shape, np.array(grid.mask, dtype=bool), _keep(grid)
+    mkset = _mk(grid)                       # Mk; = mask unless the l axis is padded
+    real_nodes = tuple(slice(0, s - p) for s, p in zip(ns, grid.nodal_padding))
+    if base is not None:
+      # a padded entry of the table must really be one (otherwise it validates nothing new), and S <= mask <= Mk, Mk != mask
+      ctx.expect(grid.modal_padding[-1] > 0 and bool((mkset & ~mask).any()) and not bool((keep & ~mask).any()),
+                 'hyp:padded-layout', f'{gname} is not a layout with a padded total-wavenumber axis',
+                 dict(grid=gname, modal_padding=list(grid.modal_padding)))
+      ctx.dist[f'hyp-padded-l-axis-by={grid.modal_padding[-1]} nodal-padding={tuple(grid.nodal_padding)}'] += 1
     ctx.dist[f'hyp-grid={gname}'] += 1
-    inp0 = dict(grid=gname, modal_shape=list(ms), nodal_shape=list(ns), radius=grid.radius, seed=ctx.seed)
+    inp0 = dict(grid=gname, modal_shape=list(ms), nodal_shape=list(ns), radius=grid.radius, seed=ctx.seed,
+                modal_padding=list(grid.modal_padding), nodal_padding=list(grid.nodal_padding),
+                Mk='mask' if base is None else 'mask + first padding column of the l axis')
     ops = dict(d_dlon=grid.d_dlon, sec_lat_d_dlat_cos2=grid.sec_lat_d_dlat_cos2, laplacian=grid.laplacian)
     J = jnp.asarray
     for draw in range(ctx.n(4, 8)):
       n = int(rng.integers(1, 4))
       amp = float(10 ** rng.uniform(-3, 3))
       inp = dict(inp0, draw=draw, layers=n, amplitude=amp)
-      any_x = rng.standard_normal((n,) + ms) * amp            # arbitrary: unmasked, unclipped
-      mk_x = any_x * mask
+      any_x = rng.standard_normal((n,) + ms) * amp            # arbitrary: unmasked, unclipped, garbage on the padding
+      mk_x = any_x * mkset
       s_x = any_x * keep
-      z = rng.standard_normal((n,) + ns) * amp
+      z = rng.standard_normal((n,) + ns) * amp                # garbage on the nodal padding as well
       with ctx.impl('hyp:raises', inp):
-        # OpsClosed
+        # OpsClosed (to_modal lands in the mask itself, a subset of Mk)
         rec('OpsClosed.toModal_mem', _off(grid.to_modal(J(z)), mask), gname, inp)
         for name, f in ops.items():
           h = dict(d_dlon='dDlon', sec_lat_d_dlat_cos2='secLat', laplacian='laplacian')[name]
-          rec(f'OpsClosed.{h}_mem', _off(f(J(mk_x)), mask), gname, inp)
+          rec(f'OpsClosed.{h}_mem', _off(f(J(mk_x)), mkset), gname, inp)
           # Mean0: for EVERY input (also unmasked garbage) the (0,0) coefficient of the result is exactly zero
           rec(f'Mean0.{h}_mem', float(np.abs(np.asarray(f(J(any_x)))[..., 0, 0]).max()), gname, inp)
         rec('OpsClosed.clip_mem', _off(grid.clip_wavenumbers(J(mk_x)), keep), gname, inp)
+        if base is not None:
+          # why Mk is not the mask here: the raw latitude derivative of a MASKED field leaves the mask, and only through the
+          # first padding column (DOMAIN: with Mk = mask the hypothesis OpsClosed.secLat_mem is false on these layouts)
+          y = np.asarray(grid.sec_lat_d_dlat_cos2(J(any_x * mask)))
+          ctx.dist['hyp-padded: secLat(masked) leaves the mask'] += int(_off(y, mask) > 0)
+          rec('padded: secLat of a masked field stays in Mk = mask + first padding column', _off(y, mkset), gname, inp)
+          # N = the nodal values on the real nodes: to_modal does not see the nodal padding
+          zc = np.zeros_like(z)
+          zc[(Ellipsis,) + real_nodes] = z[(Ellipsis,) + real_nodes]
+          rec('padded: to_modal ignores the nodal padding',
+              float(np.abs(np.asarray(grid.to_modal(J(z))) - np.asarray(grid.to_modal(J(zc)))).max()), gname, inp)
+          # ... and to_nodal does not see the modal padding (nor anything else outside the mask)
+          rec('padded: to_nodal ignores coefficients outside the mask',
+              float(np.abs(np.asarray(grid.to_nodal(J(any_x))) - np.asarray(grid.to_nodal(J(any_x * mask))))[
+                  (Ellipsis,) + real_nodes].max()) / amp, gname, inp, exact=False, tol=LIN_TOL)
         rec('OpsClosed.laplacian_S', _off(grid.laplacian(J(s_x)), keep), gname, inp)
         a = rng.standard_normal((ms[1], n, n))
         rec('OpsClosed.lproj_S', _off(E.pe._vertical_matvec_per_wavenumber(a, J(s_x)), keep), gname, inp)
@@ -191,7 +252,7 @@ def _hypotheses(ctx, E):
         unit = np.zeros(ms)
         unit[0, 0] = float(np.asarray(grid.to_modal(jnp.ones(ns)))[0, 0])
         rec('UniformOk.toNodal_unit: to_nodal of the (0,0)-only unit mode = 1',
-            float(np.abs(np.asarray(grid.to_nodal(J(unit))) - 1.0).max()), gname, inp, exact=False, tol=LIN_TOL)
+            float(np.abs(np.asarray(grid.to_nodal(J(unit)))[real_nodes] - 1.0).max()), gname, inp, exact=False, tol=LIN_TOL)
         # UniformOk.lproj_unit_*: a multiple of the unit mode lives in total wavenumber 0 only
         qs = rng.standard_normal(n)
         ru = np.asarray(E.pe._vertical_matvec_per_wavenumber(a, J(qs[:, None, None] * unit)))
@@ -207,9 +268,9 @@ def _hypotheses(ctx, E):
           c = np.asarray(grid.clip_wavenumbers(J(any_x)))[..., 0, 0]
           rec('clip fixes the (0,0) coefficient', float(np.abs(c - any_x[..., 0, 0]).max()), gname, inp)
         # derived operators as the theorems use them
-        v = (J(mk_x), J(rng.standard_normal((n,) + ms) * amp * mask))
+        v = (J(mk_x), J(rng.standard_normal((n,) + ms) * amp * mkset))
         for clip in (False, True):
-          sel = keep if clip else mask
+          sel = keep if clip else mkset
           rec(f'div_cos_lat(clip={clip}) closed', _off(grid.div_cos_lat(v, clip=clip), sel), gname, inp)
           rec(f'curl_cos_lat(clip={clip}) closed', _off(grid.curl_cos_lat(v, clip=clip), sel), gname, inp)
           g = (J(any_x), J(rng.standard_normal((n,) + ms) * amp))
@@ -219,7 +280,7 @@ def _hypotheses(ctx, E):
               float(np.abs(np.asarray(grid.curl_cos_lat(g, clip=clip))[..., 0, 0]).max()), gname, inp)
         # linearity (T11.4)
         al, be = float(rng.uniform(-2, 2)), float(rng.uniform(-2, 2))
-        y = rng.standard_normal((n,) + ms) * amp * mask
+        y = rng.standard_normal((n,) + ms) * amp * mkset
         for name, f in dict(ops, clip=grid.clip_wavenumbers).items():
           lhs = np.asarray(f(J(al * mk_x + be * y)))
           rhs = al * np.asarray(f(J(mk_x))) + be * np.asarray(f(J(y)))
@@ -256,7 +317,9 @@ def _hypotheses(ctx, E):
   for h in sorted(worst):
     val, gname, exact, tol = worst[h]
     ok = (val == 0.0) if exact else val <= tol
-    ctx.obligation(f'hyp:{h} [{"exact" if exact else "to rounding"}, {len(table)} real grids]', 'hypothesis', ok,
+    npad = sum(1 for g in grids_of[h] if 'padded' in g)
+    ctx.obligation(f'hyp:{h} [{"exact" if exact else "to rounding"}, {len(grids_of[h])} real grids, {npad} of them with a '
+                   f'padded l axis (Mk = mask + first padding column)]', 'hypothesis', ok,
                    f'worst violation {val:.3e} on {gname}')
 
 
@@ -273,19 +336,27 @@ def _hyp_equations(ctx, E):
     ctx.case((h, inp.get('config'), ctx.seed), nontrivial=inp.get('layers', 1) >= 2)
     ctx.expect(ok, f'hyp:{h}', f'{h} fails on the real code: violation {val:.3e}', dict(inp, hypothesis=h, violation=val))
 
-  configs = [(5, 'quadratic', 'real', 3), (6, 'quadratic', 'fast', 2)]
+  configs = [(5, 'quadratic', 'real', 3, None), (6, 'quadratic', 'fast', 2, None),
+             # a PADDED layout (review 2, N3): Mk = mask + first padding column, orography in Mk \ mask
+             (5, 'quadratic', 'fast', 2, 4)]
   if not ctx.quick:
-    configs += [(8, 'linear', 'real', 4), (5, 'cubic', 'fast', 1), (10, 'quadratic', 'real', 5)]
-  for ci, (M, deal, impl, n) in enumerate(configs):
-    grid = E.grid(M, deal, impl)
-    gname = _gname(M, deal, impl)
-    ms, mask, keep = grid.modal_shape, np.array(grid.mask, dtype=bool), _keep(grid)
+    configs += [(8, 'linear', 'real', 4, None), (5, 'cubic', 'fast', 1, None), (10, 'quadratic', 'real', 5, None),
+                (6, 'cubic', 'fast', 3, 5), (4, 'quadratic', 'fast', 2, 3)]
+  for ci, (M, deal, impl, n, base) in enumerate(configs):
+    grid = E.grid(M, deal, impl, base=base)
+    gname = _gname(M, deal, impl, base)
+    ms, mask, keep, mkset = grid.modal_shape, np.array(grid.mask, dtype=bool), _keep(grid), _mk(grid)
     b, lkind = dinoutil.random_boundaries(rng, n, None if n > 1 else 'equidistant')
     coords = E.cs.CoordinateSystem(horizontal=grid, vertical=E.sc.SigmaCoordinates(b))
     specs = E.specs(rng)
     tref = np.full(n, 250.0) if rng.random() < 0.3 else rng.uniform(200.0, 300.0, n)
     oro = np.asarray(grid.to_modal(jnp.asarray(rng.uniform(0, 0.05, grid.nodal_shape))))
-    inp0 = dict(config=ci, grid=gname, layers=n, boundaries=b.tolist(), tref=tref.tolist(), seed=ctx.seed)
+    if base is not None:
+      # the theorems ask `orography in Mk`, not `in the mask`: put values on the first padding column too
+      oro = oro + rng.uniform(0, 0.05, ms) * (mkset & ~mask)
+      ctx.dist[f'hyp-eq-padded-grid={gname}'] += 1
+    inp0 = dict(config=ci, grid=gname, layers=n, boundaries=b.tolist(), tref=tref.tolist(), seed=ctx.seed,
+                orography='in Mk' + ('' if base is None else ' (mask + first padding column), non-zero on that column'))
     J = jnp.asarray
 
     def draw(sel, amp=1.0):
@@ -297,7 +368,8 @@ def _hyp_equations(ctx, E):
     for cls in CLASSES:
       eq = E.CL[cls](tref, J(oro), coords, specs)
       mk = (lambda kw: pe.State(**kw)) if cls == 'dry' else (lambda kw: pe.StateWithTime(sim_time=1.5, **kw))
-      for kind, sel in (('arbitrary', np.ones(ms, dtype=bool)), ('masked', mask), ('S', keep)):
+      for kind, sel in ((('arbitrary', np.ones(ms, dtype=bool)), ('masked', mask)) +
+                        ((('Mk', mkset),) if base is not None else ()) + (('S', keep),)):
         inp = dict(inp0, cls=cls, state=kind)
         with ctx.impl('hyp:raises', inp):
           s = mk(draw(sel))
@@ -762,8 +834,7 @@ def _sw_setup(ctx, E, grid, n, orography):
 
 
 def _sw_tokens(eq, oro, ref):
-  first = fvec(np.asarray(eq.physics_specs.densities)) if SW_DENSITIES else fmat(np.asarray(eq.density_ratios))
-  return ' '.join([first, fbits(eq.physics_specs.angular_velocity),
+  return ' '.join([fvec(np.asarray(eq.physics_specs.densities)), fbits(eq.physics_specs.angular_velocity),
                    '_' if oro is None else fvec(np.asarray(oro).ravel()), fvec(ref)])
 
 
@@ -783,8 +854,8 @@ def _sw_flat(s):
 
 
 def _corr_sw(ctx, E):
-  """the shallow-water equation set (Dino.DynamicsSW when the driver has it, the former Dino.Invariants.SW otherwise) as the
-  `inv` driver runs it, against shallow_water.py (+ a leapfrog trajectory)"""
+  """the shallow-water equation set Dino.DynamicsSW as the `inv` driver runs it, against shallow_water.py (+ a leapfrog
+  trajectory)"""
   rng, jnp, ti = ctx.rng, E.jnp, E.ti
   grid = E.grid(4)
   keep = _keep(grid)
@@ -904,7 +975,12 @@ def _probe_configs(ctx):
       M, deal, impl = 21, 'quadratic', ('real', 'fast')[i % 2]
     if not ctx.quick and i % 7 == 5:
       M, deal, impl = int(rng.choice([7, 9])), 'linear', 'real'
-    out.append(dict(cls=cls, integrator=name, stack=stack, M=M, dealiasing=deal, impl=impl,
+    base = None
+    # one run of every quick plan (by rotation over the seed), every 6th run of the thorough plan: a PADDED layout
+    if (ctx.quick and i == rot % len(plan)) or (not ctx.quick and i % 6 == 1):
+      pads = [t for t in PADDED_TABLE if not (ctx.quick and t[1] == 'linear')]
+      M, deal, impl, base = pads[(rot + i) % len(pads)]
+    out.append(dict(cls=cls, integrator=name, stack=stack, M=M, dealiasing=deal, impl=impl, base=base,
                     layers=int(rng.integers(3, 7)), admissible=bool(i % 2 == 0)))
   return out
 
@@ -914,8 +990,8 @@ def _probes(ctx, E, cap):
   K = ctx.n(20, 200)
   for ci, c in enumerate(_probe_configs(ctx)):
     cls, name, stack = c['cls'], c['integrator'], c['stack']
-    grid = E.grid(c['M'], c['dealiasing'], c['impl'])
-    gname = _gname(c['M'], c['dealiasing'], c['impl'])
+    grid = E.grid(c['M'], c['dealiasing'], c['impl'], base=c['base'])
+    gname = _gname(c['M'], c['dealiasing'], c['impl'], c['base'])
     keep = _keep(grid)
     leap = name == 'leapfrog'
     uniform = float(rng.uniform(0.2, 3.0)) if c['admissible'] else None
@@ -1007,12 +1083,15 @@ def _probes(ctx, E, cap):
 def _probes_sw(ctx, E):
   rng, jnp, ti, jax = ctx.rng, E.jnp, E.ti, E.jax
   K = ctx.n(20, 200)
-  configs = [(int(rng.choice([5, 8, 10])), str(rng.choice(['real', 'fast'])), ['exp', 'ra'])]
+  configs = [(int(rng.choice([5, 8, 10])), str(rng.choice(['real', 'fast'])), ['exp', 'ra'], None)]
+  if ctx.seed % 2 == 1:
+    configs = [(5, 'fast', ['exp', 'ra'], 4)]          # odd seeds: the quick run is on a PADDED layout
   if not ctx.quick:
-    configs += [(10, 'real', ['ra']), (8, 'fast', ['exp']), (21, 'real', ['exp', 'ra']), (7, 'real', [])]
-  for ci, (M, impl, stack) in enumerate(configs):
-    grid = E.grid(M, 'quadratic', impl)
-    gname = _gname(M, 'quadratic', impl)
+    configs += [(10, 'real', ['ra'], None), (8, 'fast', ['exp'], None), (21, 'real', ['exp', 'ra'], None),
+                (7, 'real', [], None), (6, 'fast', ['exp', 'ra'], 8), (4, 'fast', [], 3)]
+  for ci, (M, impl, stack, base) in enumerate(configs):
+    grid = E.grid(M, 'quadratic', impl, base=base)
+    gname = _gname(M, 'quadratic', impl, base)
     keep = _keep(grid)
     n = int(rng.integers(1, 4))
     eq, coords, specs, ref, oro, (z, d, p), info = _sw_setup(ctx, E, grid, n, orography=['raw', 'clipped', None, 'raw'][ci % 4])
@@ -1081,8 +1160,7 @@ def run(ctx: common.Ctx):
   except Exception as e:  # pylint: disable=broad-except
     ctx.obligation('translator:DinoGen.Tableaux', 'translator', False, f'{type(e).__name__}: {e}')
   ctx.lean('DinoProofs.Properties.C11', 'C11.txt',
-           extra_files=[f for f in LEMMA_FILES if os.path.exists(os.path.join(common.LEAN, f))] +
-           ['Dino/Invariants.lean', 'Dino/InvariantsDrv.lean'],
+           extra_files=LEMMA_FILES + ['Dino/Invariants.lean', 'Dino/InvariantsDrv.lean'],
            gen_targets=['DinoGen.Tableaux'])
   if not ctx.quick:
     ctx.leanchecker(['DinoProofs.Properties.C11'])
@@ -1091,7 +1169,12 @@ def run(ctx: common.Ctx):
   ctx.notes.append(NOTE)
   ctx.assumptions.append('C11: horizontal operators enter the theorems through the named closure hypotheses OpsClosed / '
                          'Mean0 / Mode0 / IsLinearMap / div(uv)=delta, validated on the real Grid on every run (div(uv)=delta '
-                         'on linear grids as well); numpy.linalg.inv is external: the structural theorems hold for ANY '
+                         'on linear grids as well), with Mk = the modal mask on unpadded layouts and Mk = mask + first '
+                         'padding column of the total-wavenumber axis on padded layouts (base_shape_multiple; with Mk = mask '
+                         'OpsClosed.secLat_mem is false there: the raw sec_lat_d_dlat_cos2 writes into that column), S = mask '
+                         'below the clipped wavenumber in both cases; on layouts with nodal padding N is the nodal values on '
+                         'the real nodes (to_modal ignores the nodal padding: validated); device meshes (sharding) are C07\'s '
+                         'differential; numpy.linalg.inv is external: the structural theorems hold for ANY '
                          'matrices with 2n+1 rows (InvShaped), (zeta,delta)_00 conservation needs the l = 0 matrix to be a '
                          'right inverse (Inv0Ok, validated to 1e-12); FilterOk is PROVED for filtering._make_filter_fn lifted '
                          'to the spectral carrier (filterPE / filterSW: any 1-D scaling for the clock and S, scalings equal to '
